@@ -2,7 +2,7 @@
 from .selftest import selftest, user_blueprints, seeded_regression
 from .rules.algebra import rule_algebra, rule_parallel
 from .rules.defassign import rule_defassign
-from .rules.dispatch import rule_dispatch, rule_stable, rule_enginefill
+from .rules.dispatch import rule_dispatch, rule_stable, rule_enginefill, rule_allnanfill
 from .rules.refusals import rule_assert, rule_kwsig, rule_raise, rule_regkey
 from .rules.truthy import rule_truthy
 from .rules.purity import rule_pure, rule_args, rule_global, rule_memo, rule_getter, rule_capture
@@ -29,7 +29,7 @@ PROPERTIES = {
         "explanation": "R-DISPATCH over (kernel, engine) resolutions and engine-module bindings; R-STABLE over argsort sites; R-PASSTHROUGH[engine]: every stage runs with the engine the user chose; R-VARSHIFT; R-PAIRS[perm]; R-LAYOUT: no flattening in memory order; R-MISSINGCODE: every code producer sends NaN/NaT labels to -1; R-UNPERMUTE: results are put back in order with the inverse permutation",
     },
     "C05": {
-        "rules": [rule_truthy, rule_fillflow, rule_parallel, rule_counter, CD.rule_identitycodes, CD.rule_labelvalue, CD.rule_missingcode, M.rule_fillwiden, CD.rule_indexer, M.rule_fillcast, CD.rule_indexdir, rule_absentmask, rule_passthrough_options],
+        "rules": [rule_truthy, rule_fillflow, rule_parallel, rule_counter, CD.rule_identitycodes, CD.rule_labelvalue, CD.rule_missingcode, M.rule_fillwiden, CD.rule_indexer, M.rule_fillcast, CD.rule_indexdir, rule_absentmask, rule_passthrough_options, M.rule_reindexskip],
         "thorough": [selftest, seeded_regression],
         "technique": "def-use fill-family + boolean-context scan; counter-wiring table check (custom AST checker)",
         "level_text": "Static, all-paths: no fill-value-typed expression (nor the optional min_count) is ever coerced to bool, so falsy "
@@ -90,7 +90,7 @@ PROPERTIES = {
         "explanation": "R-PLAN (incl. every block passes the re-indexer), R-ALGEBRA, R-COVER, R-PAIRS[dummy-axis], R-TOKEN (a chunked result computed together with another one is not overwritten by it)",
     },
     "C06": {
-        "rules": [rule_algebra, rule_order, rule_stable, rule_keys, rule_globalidx, rule_contig, PR.rule_forder, rule_enginefill],
+        "rules": [rule_algebra, rule_order, rule_stable, rule_keys, rule_globalidx, rule_contig, PR.rule_forder, rule_enginefill, rule_allnanfill],
         "thorough": [selftest, seeded_regression],
         "technique": "monoid-table arg rows; taint of block order through unordered containers; stable-sort sites; key injectivity",
         "level_text": "Static, all-paths: the four arg-reduction blueprints pair value/index kernels with matching polarity, NaN discipline, "
@@ -116,7 +116,7 @@ PROPERTIES = {
         "explanation": "R-SENTINEL on offset_labels, R-COPERMUTE, R-PAIRS, R-CODEWIDTH (per-slice offsets are added to intp codes)",
     },
     "C10": {
-        "rules": [M.rule_scantable, rule_stable, M.rule_promote, rule_pure, M.rule_kindmissing, M.rule_scanacc, M.rule_emptykernel],
+        "rules": [M.rule_scantable, rule_stable, M.rule_promote, rule_pure, M.rule_kindmissing, M.rule_scanacc, M.rule_emptykernel, CD.rule_onesided],
         "thorough": [selftest, seeded_regression],
         "technique": "registry constant-evaluation + scan table; stable-sort sites",
         "level_text": "Static: the three scan blueprints are consistent (operator identity, carried reduction, in-block scan), bfill is the "
@@ -134,7 +134,7 @@ PROPERTIES = {
         "explanation": "R-DTYPETABLE, R-FINALCAST, R-PROMOTE, R-PAIRS[outinds], R-REINDEXDTYPE, R-SUBSUMED (no dead dtype-class branch), R-ACCDTYPE (block accumulators derive from the final dtype), R-FINALDEPS (the final dtype depends on reduction, input dtype, requested dtype and fill value only)",
     },
     "C16": {
-        "rules": [M.rule_coindex, rule_passthrough_sort, rule_sorted, rule_token, rule_blocklabels, CD.rule_indexdir, rule_passthrough_options],
+        "rules": [M.rule_coindex, rule_passthrough_sort, rule_sorted, rule_token, rule_blocklabels, CD.rule_indexdir, rule_passthrough_options, M.rule_reindexskip],
         "thorough": [selftest, seeded_regression],
         "technique": "syntactic co-indexing of values and labels in one basic block",
         "level_text": "Static: whenever groupby_reduce re-indexes the result along the group axis it re-indexes the labels with the same "
@@ -184,7 +184,7 @@ PROPERTIES = {
         "explanation": "R-COVER, R-KEYS, R-AXISKEY, R-TOKEN, R-LOOPSTORE",
     },
     "C04": {
-        "rules": [rule_algebra, rule_parallel, rule_infresolve, M.rule_subsumed, M.rule_finite, M.rule_nanfinal, rule_dispatch],
+        "rules": [rule_algebra, rule_parallel, rule_infresolve, M.rule_subsumed, M.rule_finite, M.rule_nanfinal, rule_dispatch, rule_allnanfill],
         "thorough": [selftest, user_blueprints, seeded_regression],
         "technique": "registry constant-evaluation + table comparison (custom AST checker)",
         "level_text": "Static, all-paths: every registered blueprint's (block kernel, combine, intermediate fill, intermediate dtype, "
